@@ -559,6 +559,7 @@ struct WkdRun {
 
 struct WkdScenario : Scenario {
     const char* name() const override { return "wkd"; }
+    int step_offset() const override { return 1; }
 
     static std::string directive(Rng& r, int bias_hide) {
         int k = r.range(0, 9);
